@@ -66,6 +66,10 @@ def descs(tier):
                     for form in forms:
                         yield dict(func="active_vertices_connected", n=n, edges=[list(e) for e in edges],
                                    acyclic=acyclic, prim=prim, form=form)
+    from bounded.graphprops import ROUND_GRAPHS
+    for (n, edges) in ROUND_GRAPHS:
+        for acyclic in (False, True):
+            yield dict(func="active_vertices_connected", n=n, edges=[list(e) for e in edges], acyclic=acyclic, prim=False, form="vars")
     shapes = [(1, 1), (1, 2), (2, 1), (1, 4), (4, 1), (2, 2), (2, 3), (3, 2), (3, 3)]
     if tier != "quick":
         shapes += [(2, 4), (4, 2), (1, 7), (3, 4), (4, 3), (2, 6), (4, 4)]
